@@ -93,6 +93,20 @@ def run(prop, tier, replay=None):
         run_driver("drv_store", ["--out", t2, "--work", os.path.join(w, "runs_big"), "--nk", 6, "--nv", 3, "--max", 3, "--cache", 2,
                                  "--random", 1500 if thorough else 120, "--steps", 80] + (["--crash", 100, "--cuts", 400 if thorough else 10] if prop == "C02" else []), w)
         runs.append((t2, "RecordStoreTrace_big.cfg"))
+    if not replay:
+        # the same behaviours through the REAL SwarmDriver command handlers (PutLocalRecord with its kind -> type
+        # mapping, AddLocalRecordAsStored, RemoveFailedLocalRecord, GetLocalRecord, quoting, clean-up trigger) on a
+        # node built by NetworkBuilder::build_node; restarts re-derive the encryption seed from the peer id
+        nsim = tlc("recordstore", "MCRecordStore", "MCRecordStore_node_sim.cfg", w, workers=1, simulate="num=%d" % (2000 if thorough else 150),
+                   depth=16, coverage=False, timeout=3000, extra=["-seed", str(seed() + 17)])
+        if nsim.violated:
+            v.violation("model:" + nsim.violated, "clause falsified on a simulated model behaviour (node constants)", {"area": "recordstore", "tlc": nsim.error_text[-6000:]})
+        nscn = os.path.join(w, "scenarios_node.ndjson")
+        write_ndjson(nscn, scenarios_from(nsim))
+        t4 = os.path.join(w, "trace_node.ndjson")
+        run_driver("drv_store", ["--scenarios", nscn, "--out", t4, "--work", os.path.join(w, "runs_node"), "--nk", 4, "--nv", 2, "--max", 99, "--cache", 25,
+                                 "--via-node", "--random", 600 if thorough else 40, "--steps", 60, "--crash", 100 if prop == "C02" else 30, "--cuts", 400 if thorough else 10], w, timeout=3000)
+        runs.append((t4, "RecordStoreTrace_node.cfg"))
     if prop == "C10" and not replay:
         # clean-up at the REAL threshold: 1636 (1635) filler records + model keys
         t3 = os.path.join(w, "trace_padded.ndjson")
